@@ -361,6 +361,43 @@ auto Run<Char, N, Tr>::do_extra(std::uint32_t code) -> void
         if (fe.p != fe.e || fe.pops != fm.pops) { fail("append(single-pass first,last) consumed " + num(fe.pops) + " elements of the source, std consumed " + num(fm.pops)); }
         break;
     }
+    // ------------------------------------------------------------------ erase_if with a predicate whose answer depends on
+    // state held by reference: [alg.remove] applies the predicate exactly last-first times, once per element, in order
+    case FREE_ERASE_IF_STATEFUL: {
+        struct State {
+            std::size_t calls{0};
+            std::size_t budget{0};
+        };
+        Char target    = size > 0 ? m[k % size] : ch; // mostly a character that is present
+        std::size_t kk = 2 + (op.c >> 4) % 3;
+        auto make      = [&](State& st) {
+            return [&st, target, kk, mode = sel % 4](Char e) -> bool {
+                ++st.calls;
+                switch (mode) {
+                case 0: // "remove at most `budget` occurrences of target"
+                    if (e == target && st.budget > 0) {
+                        --st.budget;
+                        return true;
+                    }
+                    return false;
+                case 1: return st.calls % kk == 0;                     // every kk-th character
+                case 2: return e == target && st.calls % 2 == 1;       // target, but only on odd-numbered applications
+                default: return st.calls <= kk || e == Char(0);        // the first kk characters and every NUL
+                }
+            };
+        };
+        State se{0, 1 + (op.c >> 6) % 3};
+        State sm = se;
+        auto r1  = etl::erase_if(*x, make(se));
+        auto r2  = std::erase_if(m, make(sm));
+        std::string what = "erase_if(str, stateful predicate mode " + std::to_string(sel % 4) + " target " + show_ch(target) + " k " + num(kk) + " budget " + num(1 + (op.c >> 6) % 3) + ")";
+        if (r1 != r2) {
+            fail(what + " returned " + num(r1) + " expected " + num(r2));
+        } else if (se.calls != size) {
+            fail(what + " applied the predicate " + num(se.calls) + " times to a string of size " + num(size) + " (std: " + num(sm.calls) + ")");
+        }
+        break;
+    }
     default: break;
     }
 }
